@@ -227,7 +227,19 @@ func RInv(p *parser, top []any) bool {
 //@   assert implicit-and-shiftable before "p.stack = append(p.stack, implAnd)": p.shouldShift(implAnd)
 //@   assert operand-follows-token before "p.stack = append(p.stack, lit)": len(p.stack) == 0 || reduce.IsTok(p.stack[len(p.stack)-1])
 
+// ParsedTree: the tree Parse returns for an input (nil when it fails).
+func ParsedTree(in string, opts []opt) *expr.Expression {
+	e, _ := Parse(in, opts...)
+	return e
+}
+
+// UsesFuzzyOrBoost: the query contains a fuzzy (~) or boost (^) operator anywhere.
+func UsesFuzzyOrBoost(e *expr.Expression) bool {
+	return driver.HasOp(e, expr.Fuzzy) || driver.HasOp(e, expr.Boost)
+}
+
 //@ func Parse
+//@   functional
 //@   props C10 C01
 //@   requires verifspec.Forall(0, len(opts), func(i int) bool { return opts[i] != nil })
 //@   ensures  (err == nil) != (e == nil)
@@ -245,16 +257,18 @@ func RInv(p *parser, top []any) bool {
 //@ func ToPostgres
 //@   props C10 C01 C13
 //@   requires verifspec.Forall(0, len(opts), func(i int) bool { return opts[i] != nil })
-//@   assumes  driver.Builtin(postgres.Base) && driver.RangAt(postgres.Base)
+//@   assumes  driver.Builtin(postgres.Base) && driver.RangAt(postgres.Base) && !driver.Registered(postgres.Base, expr.Fuzzy) && !driver.Registered(postgres.Base, expr.Boost)
 //@   ensures[error-means-empty] result1 != nil ==> result0 == ""
-//@   lemma renderable before "return postgres.Render(e)": driver.LemmaParsedRenderable(e)
+//@   ensures[fuzzy-and-boost-are-refused] UsesFuzzyOrBoost(ParsedTree(in, opts)) ==> result1 != nil
+//@   lemma renderable before "return postgres.Render(e)": driver.LemmaParsedRenderable(e); if driver.HasOp(e, expr.Fuzzy) { driver.LemmaUnregisteredFails(postgres.Base, e, expr.Fuzzy) }; if driver.HasOp(e, expr.Boost) { driver.LemmaUnregisteredFails(postgres.Base, e, expr.Boost) }
 
 //@ func ToParameterizedPostgres
 //@   props C10 C01 C13
 //@   requires verifspec.Forall(0, len(opts), func(i int) bool { return opts[i] != nil })
-//@   assumes  driver.Builtin(postgres.Base) && driver.RangAt(postgres.Base)
+//@   assumes  driver.Builtin(postgres.Base) && driver.RangAt(postgres.Base) && !driver.Registered(postgres.Base, expr.Fuzzy) && !driver.Registered(postgres.Base, expr.Boost)
 //@   ensures[error-means-empty] err != nil ==> s == ""
-//@   lemma renderable before "return postgres.RenderParam(e)": driver.LemmaParsedRenderable(e)
+//@   ensures[fuzzy-and-boost-are-refused] UsesFuzzyOrBoost(ParsedTree(in, opts)) ==> err != nil
+//@   lemma renderable before "return postgres.RenderParam(e)": driver.LemmaParsedRenderable(e); if driver.HasOp(e, expr.Fuzzy) { driver.LemmaUnregisteredFailsParam(postgres.Base, e, expr.Fuzzy) }; if driver.HasOp(e, expr.Boost) { driver.LemmaUnregisteredFailsParam(postgres.Base, e, expr.Boost) }
 
 // imports used by the directive comments only
 var (
